@@ -98,6 +98,15 @@ theorem C15_source_janitor_life (δs : List Int) (s : Cache.St K V) :
     DeepJanitor.ticks_then_stop _ _ _ (Or.inr rfl) DeepJanitor.mapOf_tick_clause DeepJanitor.mapOf_stop_clause]
   exact ⟨rfl, _, rfl⟩
 
+/-- **no pass after the finalizer** (text of both files): events that follow the finalizer's are not received -/
+theorem C15_source_nothing_after_stop (δs : List Int) (more : List Deep.JEv) (s : Cache.St K V) :
+    Deep.janitorRun Deep.twinMap Gen.Deep.xsyncMap_janitor Gen.Deep.xsyncMap_finalizer s (δs.map .tick ++ .stop :: more) =
+      Deep.janitorRun Deep.twinMap Gen.Deep.xsyncMap_janitor Gen.Deep.xsyncMap_finalizer s (δs.map .tick ++ [.stop]) ∧
+    Deep.janitorRun Deep.twinMapOf Gen.Deep.xsyncMapOf_janitor Gen.Deep.xsyncMapOf_finalizer s (δs.map .tick ++ .stop :: more) =
+      Deep.janitorRun Deep.twinMapOf Gen.Deep.xsyncMapOf_janitor Gen.Deep.xsyncMapOf_finalizer s (δs.map .tick ++ [.stop]) :=
+  ⟨DeepJanitor.nothing_after_stop _ _ _ (Or.inl rfl) DeepJanitor.map_tick_clause DeepJanitor.map_stop_clause δs more s,
+   DeepJanitor.nothing_after_stop _ _ _ (Or.inr rfl) DeepJanitor.mapOf_tick_clause DeepJanitor.mapOf_stop_clause δs more s⟩
+
 /-- one tick of the printed goroutine: afterwards nothing expired at the tick's clock remains, everything unexpired is
 untouched, and the goroutine is still in its loop -/
 theorem C15_source_janitor_tick (s : Cache.St K V) (hw : AMap.WF s.items) (δ : Int) (k : K) :
